@@ -90,6 +90,9 @@ pub enum WriteOutcome {
     OpenFailed(ErrKind),
     Failed(usize, ErrKind),
     TornByCrash(usize),
+    /// The process died while writing some other file of the user-data directory (the
+    /// temporary file of an atomic save): the store itself is untouched.
+    CrashedBesideStore,
 }
 
 #[derive(Clone, Debug)]
@@ -102,6 +105,9 @@ pub struct WriteRecord {
 #[derive(Clone)]
 pub struct DiskState {
     pub files: [Option<FileEnt>; 2],
+    /// Any other file a (changed) engine keeps in the user-data directory, e.g. the
+    /// temporary file of an atomic save.
+    pub extra: std::collections::BTreeMap<String, FileEnt>,
     /// `Some(prev)` while the current content of the file has not been flushed:
     /// `prev` is what a power loss brings back.
     pub unflushed: [Option<Option<FileEnt>>; 2],
@@ -131,6 +137,7 @@ impl Default for DiskState {
     fn default() -> Self {
         DiskState {
             files: [None, None],
+            extra: std::collections::BTreeMap::new(),
             unflushed: [None, None],
             last_write_ns: 0,
             dir: DirState::Present,
@@ -164,15 +171,30 @@ fn mirror_path(root: &str, f: FileId) -> String {
 #[derive(Clone)]
 pub struct SimDisk(pub Rc<RefCell<DiskState>>);
 
-fn classify(path: &Path) -> Option<Option<FileId>> {
+#[derive(Clone, Debug, PartialEq)]
+enum Which {
+    Known(FileId),
+    /// some other name directly inside the user-data directory
+    Other(String),
+    /// the user-data directory itself (or a parent of it inside the virtual root)
+    Dir,
+}
+
+fn classify(path: &Path) -> Option<Which> {
     let s = path.to_str()?;
-    let rest = s.strip_prefix(USER_DIR)?;
-    let rest = rest.strip_prefix('/').unwrap_or(rest);
-    Some(match rest {
-        STORE_NAME => Some(FileId::Store),
-        AC_NAME => Some(FileId::Autocorrect),
-        _ => None,
-    })
+    if let Some(rest) = s.strip_prefix(USER_DIR) {
+        let rest = rest.strip_prefix('/').unwrap_or(rest);
+        return Some(match rest {
+            "" => Which::Dir,
+            STORE_NAME => Which::Known(FileId::Store),
+            AC_NAME => Which::Known(FileId::Autocorrect),
+            other => Which::Other(other.to_string()),
+        });
+    }
+    if s == XDG || s.starts_with(&format!("{}/", XDG)) {
+        return Some(Which::Dir);
+    }
+    None
 }
 
 pub fn to_system_time(ns: u64) -> SystemTime {
@@ -290,6 +312,7 @@ impl SimDisk {
         let mut st = self.0.borrow_mut();
         if d == DirState::Missing {
             st.files = [None, None];
+            st.extra.clear();
             st.unflushed = [None, None];
         }
         st.dir = d;
@@ -354,91 +377,221 @@ impl SimDisk {
         (st.n_read, st.n_open, st.n_write)
     }
 
-    fn fetch(&self, f: Option<FileId>, tag: u8) -> io::Result<(Vec<u8>, u64)> {
+    fn fetch(&self, w: Which, tag: u8) -> io::Result<(Vec<u8>, u64)> {
         let mut st = self.0.borrow_mut();
-        st.digest = fnv_add(st.digest, &[tag, f.map(|f| f.ix() as u8).unwrap_or(9)]);
-        let f = match f {
-            Some(f) => f,
-            None => return Err(ErrKind::NotFound.to_io()),
+        let code = match &w {
+            Which::Known(f) => f.ix() as u8,
+            Which::Other(_) => 8,
+            Which::Dir => 9,
         };
+        st.digest = fnv_add(st.digest, &[tag, code]);
         if st.dir == DirState::Missing {
             return Err(ErrKind::NotFound.to_io());
         }
-        if st.deny_open[f.ix()] {
-            return Err(ErrKind::Access.to_io());
-        }
-        match &st.files[f.ix()] {
+        let ent = match &w {
+            Which::Known(f) => {
+                if st.deny_open[f.ix()] {
+                    return Err(ErrKind::Access.to_io());
+                }
+                st.files[f.ix()].clone()
+            }
+            Which::Other(name) => st.extra.get(name).cloned(),
+            Which::Dir => return Err(io::Error::new(io::ErrorKind::Other, "sim: is a directory")),
+        };
+        match ent {
             Some(e) => {
-                let r = (e.bytes.clone(), e.mtime);
-                st.digest = fnv_add(st.digest, &(r.0.len() as u64).to_le_bytes());
-                Ok(r)
+                st.digest = fnv_add(st.digest, &(e.bytes.len() as u64).to_le_bytes());
+                Ok((e.bytes, e.mtime))
             }
             None => Err(ErrKind::NotFound.to_io()),
         }
     }
 }
 
+fn dead() -> io::Error {
+    // After a crash inside a write the process is dead: whatever the engine's code still
+    // does in the same call (rename the temporary file, remove it, ...) never happens.
+    io::Error::new(io::ErrorKind::Other, "sim: the process died inside an earlier write")
+}
+
 impl SimFs for SimDisk {
     fn read(&self, path: &Path) -> Option<io::Result<Vec<u8>>> {
-        let f = classify(path)?;
+        let w = classify(path)?;
+        if self.0.borrow().crash_pending {
+            return Some(Err(dead()));
+        }
         self.0.borrow_mut().n_read += 1;
-        Some(self.fetch(f, b'r').map(|(b, _)| b))
+        Some(self.fetch(w, b'r').map(|(b, _)| b))
     }
 
     fn open(&self, path: &Path) -> Option<io::Result<(Vec<u8>, SystemTime)>> {
-        let f = classify(path)?;
+        let w = classify(path)?;
+        if self.0.borrow().crash_pending {
+            return Some(Err(dead()));
+        }
         self.0.borrow_mut().n_open += 1;
-        Some(self.fetch(f, b'o').map(|(b, t)| (b, to_system_time(t))))
+        Some(self.fetch(w, b'o').map(|(b, t)| (b, to_system_time(t))))
     }
 
     fn write(&self, path: &Path, data: &[u8]) -> Option<io::Result<()>> {
-        let f = classify(path)?;
+        let w = classify(path)?;
+        if self.0.borrow().crash_pending {
+            return Some(Err(dead()));
+        }
         let mut st = self.0.borrow_mut();
         st.n_write += 1;
         st.digest = fnv_add(st.digest, b"w");
         st.digest = fnv_add(st.digest, data);
-        let f = match f {
-            Some(f) => f,
-            None => return Some(Err(ErrKind::Access.to_io())),
-        };
+        if w == Which::Dir {
+            return Some(Err(io::Error::new(io::ErrorKind::Other, "sim: is a directory")));
+        }
         let natural = match st.dir {
             DirState::Missing => Some(ErrKind::NotFound),
             DirState::ReadOnly => Some(ErrKind::Access),
             DirState::Present => None,
         };
-        let fault = if f == FileId::Store { st.armed.take() } else { None };
+        // an armed fault bites the next write into the user-data directory, whichever file
+        // the engine writes first (the store itself, or the temporary file of an atomic save)
+        let fault = if w != Which::Known(FileId::Autocorrect) { st.armed.take() } else { None };
         let now = st.now;
+        let put = |st: &mut DiskState, bytes: &[u8]| match &w {
+            Which::Known(f) => Self::store(st, *f, bytes, now),
+            Which::Other(name) => {
+                st.extra.insert(name.clone(), FileEnt { bytes: bytes.to_vec(), mtime: now });
+                st.last_write_ns = now;
+            }
+            Which::Dir => {}
+        };
         let (outcome, result): (WriteOutcome, io::Result<()>) = if let Some(kind) = natural {
             (WriteOutcome::OpenFailed(kind), Err(kind.to_io()))
         } else {
             match fault {
-                Some(WriteFault::OpenFails(kind)) => {
-                    (WriteOutcome::OpenFailed(kind), Err(kind.to_io()))
-                }
+                Some(WriteFault::OpenFails(kind)) => (WriteOutcome::OpenFailed(kind), Err(kind.to_io())),
                 Some(WriteFault::FailsAfter(k, kind)) => {
                     let k = k as usize % (data.len() + 1);
-                    Self::store(&mut st, f, &data[..k], now);
+                    put(&mut st, &data[..k]);
                     (WriteOutcome::Failed(k, kind), Err(kind.to_io()))
                 }
                 Some(WriteFault::CrashAfter(k)) => {
                     let k = k as usize % (data.len() + 1);
-                    Self::store(&mut st, f, &data[..k], now);
+                    put(&mut st, &data[..k]);
                     st.crash_pending = true;
                     (WriteOutcome::TornByCrash(k), Ok(()))
                 }
                 None => {
-                    Self::store(&mut st, f, data, now);
+                    put(&mut st, data);
                     (WriteOutcome::Complete, Ok(()))
                 }
             }
         };
         st.digest = fnv_add(st.digest, format!("{:?}", outcome).as_bytes());
-        st.writes.push(WriteRecord {
-            file: f,
-            data: data.to_vec(),
-            outcome,
-        });
+        // the harness's durable model follows the store; writes of other files are
+        // reported under the store's name only when they fail or tear (a save attempt)
+        let report = match (&w, &outcome) {
+            (Which::Known(f), _) => Some(*f),
+            (Which::Other(_), WriteOutcome::Complete) => None,
+            (Which::Other(_), _) => Some(FileId::Store),
+            _ => None,
+        };
+        if let Some(file) = report {
+            // a torn temporary file leaves the store itself intact
+            let outcome = match (&w, outcome) {
+                (Which::Other(_), WriteOutcome::Failed(_, k)) => WriteOutcome::OpenFailed(k),
+                (Which::Other(_), WriteOutcome::TornByCrash(_)) => WriteOutcome::CrashedBesideStore,
+                (_, o) => o,
+            };
+            st.writes.push(WriteRecord { file, data: data.to_vec(), outcome });
+        }
         Some(result)
+    }
+
+    fn rename(&self, from: &Path, to: &Path) -> Option<io::Result<()>> {
+        let wf = classify(from)?;
+        let wt = classify(to)?;
+        if self.0.borrow().crash_pending {
+            return Some(Err(dead()));
+        }
+        let mut st = self.0.borrow_mut();
+        st.n_write += 1;
+        st.digest = fnv_add(st.digest, b"mv");
+        match st.dir {
+            DirState::Missing => return Some(Err(ErrKind::NotFound.to_io())),
+            DirState::ReadOnly => {
+                if let Which::Known(f) = &wt {
+                    st.writes.push(WriteRecord { file: *f, data: vec![], outcome: WriteOutcome::OpenFailed(ErrKind::Access) });
+                }
+                return Some(Err(ErrKind::Access.to_io()));
+            }
+            DirState::Present => {}
+        }
+        let ent = match &wf {
+            Which::Known(f) => st.files[f.ix()].take(),
+            Which::Other(name) => st.extra.remove(name),
+            Which::Dir => None,
+        };
+        let ent = match ent {
+            Some(e) => e,
+            None => return Some(Err(ErrKind::NotFound.to_io())),
+        };
+        let now = st.now;
+        st.digest = fnv_add(st.digest, &ent.bytes);
+        match &wt {
+            Which::Known(f) => {
+                Self::store(&mut st, *f, &ent.bytes, now);
+                st.writes.push(WriteRecord { file: *f, data: ent.bytes.clone(), outcome: WriteOutcome::Complete });
+            }
+            Which::Other(name) => {
+                st.extra.insert(name.clone(), ent);
+            }
+            Which::Dir => return Some(Err(io::Error::new(io::ErrorKind::Other, "sim: is a directory"))),
+        }
+        Some(Ok(()))
+    }
+
+    fn remove_file(&self, path: &Path) -> Option<io::Result<()>> {
+        let w = classify(path)?;
+        if self.0.borrow().crash_pending {
+            return Some(Err(dead()));
+        }
+        let mut st = self.0.borrow_mut();
+        st.digest = fnv_add(st.digest, b"rm");
+        match st.dir {
+            DirState::Missing => return Some(Err(ErrKind::NotFound.to_io())),
+            DirState::ReadOnly => return Some(Err(ErrKind::Access.to_io())),
+            DirState::Present => {}
+        }
+        let existed = match &w {
+            Which::Known(f) => st.files[f.ix()].take().is_some(),
+            Which::Other(name) => st.extra.remove(name).is_some(),
+            Which::Dir => false,
+        };
+        Some(if existed { Ok(()) } else { Err(ErrKind::NotFound.to_io()) })
+    }
+
+    fn create_dir_all(&self, path: &Path) -> Option<io::Result<()>> {
+        classify(path)?;
+        if self.0.borrow().crash_pending {
+            return Some(Err(dead()));
+        }
+        let mut st = self.0.borrow_mut();
+        st.digest = fnv_add(st.digest, b"mkdir");
+        if st.dir == DirState::Missing {
+            // an engine that creates its data directory when it is missing
+            st.dir = DirState::Present;
+        }
+        Some(Ok(()))
+    }
+
+    fn create(&self, path: &Path) -> Option<io::Result<()>> {
+        let w = classify(path)?;
+        let st = self.0.borrow();
+        if w == Which::Dir {
+            return Some(Err(io::Error::new(io::ErrorKind::Other, "sim: is a directory")));
+        }
+        // (errors of the open itself are delivered when the bytes arrive through `write`,
+        // which applies the directory state and the armed fault)
+        let _ = st;
+        Some(Ok(()))
     }
 }
 
